@@ -51,7 +51,10 @@ pub fn gen_case(r: &mut Rng, idx: u64, thorough: bool) -> CrashCase {
     let year = *r.pick(&[2016, 2017, 2019, 2020, 2024]);
     // thorough tier: whole years; every sixth case is run early in the NEXT year, so that the
     // interrupted write is the first write of a year that is already over
-    let days = if thorough && idx % 6 == 5 {
+    // (quick tier: the third case, with a coarse grid of crash points — any interrupted in-place write
+    // of a finished year shows, because nothing ever refreshes that year's file)
+    let past = if thorough { idx % 6 == 5 } else { idx % 3 == 2 };
+    let days = if past {
         (jan1_jd(year + 1) - jan1_jd(year)) + r.range(1, 5) as i32
     } else if thorough && idx % 3 == 2 {
         r.range(300, 366) as i32
@@ -74,7 +77,7 @@ pub fn gen_case(r: &mut Rng, idx: u64, thorough: bool) -> CrashCase {
     let old_today = if idx % 2 == 0 { None } else { Some(today - r.range(1, (days - 3) as i64) as i32) };
     let later_today = today + *r.pick(&[0, 0, 1, 3, 9]);
     // a full year has ~6000 byte offsets: take every 5th one there (and every date only near the end)
-    let every = if days > 100 { 5 } else { 1 };
+    let every = if past && !thorough { 40 } else if days > 100 { 5 } else { 1 };
     // (every second case: cut inside the digits of a rate — the worst thing to find lying around)
     let pre = if idx % 2 == 1 {
         Some(r.pick(&["b25", "b26", "b27", "b43"]).to_string())
